@@ -1,5 +1,5 @@
 #!/usr/bin/env python3
-# usage: seed_round.py <suffix> <style-shift>
+# usage: seed_round.py <suffix> <style-shift> [2 / 3 = second / third style set]
 # Prepares one scratch worktree per property under /tmp/wt/<ID><suffix> (outside /repo and
 # /verif) plus the task text handed to the seeding sub-agent: the property text, the
 # worktree, generic instructions - nothing from /verif.
@@ -9,6 +9,16 @@ styles=["a REFACTORING that looks behaviour-preserving (extracting a helper, mer
 "a PERFORMANCE optimisation (fewer allocations, avoiding a copy, caching or pooling a value, reading in bulk) that is wrong in a corner case",
 "a change to ERROR HANDLING or cleanup (an early return, a deferred call, which error wins, what is reset on failure) that is wrong for one particular failure",
 "a small FEATURE or leniency added for interoperability (accepting one more syntax, tolerating a quirk of some client/server, a new option) that opens a hole"]
+styles2=["a change involving the INTERPLAY OF TWO FEATURES (for example LMTP with CHUNKING, pipelining with errors, STARTTLS with AUTH, RSET in the middle of a transaction, timeouts with partial input, size limits with chunks) where each feature is still fine on its own",
+"a MODERNISATION (replacing hand-written code by a standard-library helper such as strings.Cut/Fields/EqualFold/TrimFunc/Title, bufio.Scanner, io.CopyN/LimitReader/ReadFull, bytes helpers, or context-based cancellation) whose semantics differ subtly from the code it replaces",
+"a DEFENSIVE HARDENING or validation that over- or under-corrects (a new limit, a stricter or looser check, sanitising, normalising case or whitespace, an off-by-one at a boundary) and thereby changes behaviour for a rare but legitimate or hostile input",
+"a change in STATE LIFETIME (when a field is reset, initialised, cached or reused across transactions, sessions, a second EHLO, STARTTLS, or a retried call) that leaves stale or prematurely cleared state in one particular sequence"]
+styles3=["a change around TIMEOUTS, DEADLINES or PARTIAL I/O (short reads or writes, an error returned together with data, a deadline that expires in the middle of an operation, a write that fails) that mishandles one such event",
+"a change in NUMERIC handling (sizes, counters, limits, offsets, integer conversion or overflow, an off-by-one at a boundary, the parsing or printing of numbers) that is wrong at a boundary value",
+"a change in TEXT handling (letter case, Unicode, white space, quoting and escaping, trimming, splitting, joining) that is wrong for an unusual but legal string",
+"a change in CONCURRENCY or LIFECYCLE handling (locks, goroutines, channels, Close/Shutdown, sync.Once/Pool, deferred cleanup, the order of teardown steps) that is wrong in one particular interleaving or ordering"]
+if len(sys.argv)>3 and sys.argv[3]=='2': styles=styles2
+if len(sys.argv)>3 and sys.argv[3]=='3': styles=styles3
 base='''Your job: produce ONE realistic code change ("seeded defect") to the Go library emersion/go-smtp (an ESMTP/LMTP client and server library) that BREAKS the property below, while the library still compiles and its existing test suite still passes.
 
 Work ONLY inside the scratch git worktree /tmp/wt/@ID@ (a checkout of the library). Do NOT read or touch /verif or /repo. Put your deliverables in /tmp/wt/@ID@-out/.
